@@ -361,6 +361,12 @@ func (rt *routes) start(t *rapid.T, img dbm.DB, name, where string) *sim.Replica
 // resolver of n and applies it.
 func (rt *routes) forkTo(t *rapid.T, n *sim.Replica, bundles []types.BlockBundle, common uint64, tip *sim.Replica, where string) {
 	hh := n.Head().Height()
+	for i, b := range bundles {
+		if (certRequired(b.Block.Header) || i == len(bundles)-1) && b.Cert.Empty() {
+			harnessLimit(fmt.Errorf("harness: no certificate for fork block %d", b.Block.Height()))
+			return
+		}
+	}
 	resolver := consensus.NewForkResolver(nil, nil, n.Chain, collector.NewStatsCollector())
 	if err := resolver.VerifProcessBlocks(bundles); err != nil {
 		t.Fatalf("restarted node (head %d) refuses an honest longer fork that leaves its chain after %d, after %s: %v\n%s", hh, common, where, err, rt.context())
@@ -384,6 +390,9 @@ func (rt *routes) fastSyncTo(t *rapid.T, img dbm.DB, p *peerChain, target uint64
 	if st.fresh && st.root != head.IdentityRoot() {
 		t.Fatalf("restarted node (head %d): the fast sync starts from an identity state that is not the one of the head (tree version %d, root %x, head has %x) after %s\n%s",
 			hh, st.version, st.root, head.IdentityRoot(), where, rt.context())
+	}
+	if harnessLimit(err) {
+		return st // the harness could not build what an honest peer would serve (no key for a committee member): no verdict
 	}
 	if err != nil {
 		t.Fatalf("restarted node (head %d) refuses what an honest peer (%s chain) serves to its fast sync to %d after %s: %v\n%s", hh, p.name, target, where, err, rt.context())
@@ -451,16 +460,18 @@ func (rt *routes) run(t *rapid.T, img dbm.DB, where string, interruptedDiff bool
 		} else {
 			n := rt.start(t, img, "fullsync", where)
 			attempts, refusals, err := fullSyncLike(n, rt.alt, rt.alt.tip())
-			if err != nil {
-				t.Fatalf("restarted node (head %d) cannot follow an honest peer by the full sync (a different block at height %d than the interrupted one) after %s: %v\n%s",
-					hh, rt.common+1, where, err, rt.context())
-			}
-			if !sameAs(n, rt.alt.src) {
-				t.Fatalf("restarted node does not reach the peer's head / roots by the full sync after %s (refusals: %v)\n%s", where, refusals, rt.context())
-			}
-			evid.Count("route.fullsync")
-			if attempts > 1 {
-				evid.Count("route.fullsync.refused_block_then_reset_to_head")
+			if !harnessLimit(err) {
+				if err != nil {
+					t.Fatalf("restarted node (head %d) cannot follow an honest peer by the full sync (a different block at height %d than the interrupted one) after %s: %v\n%s",
+						hh, rt.common+1, where, err, rt.context())
+				}
+				if !sameAs(n, rt.alt.src) {
+					t.Fatalf("restarted node does not reach the peer's head / roots by the full sync after %s (refusals: %v)\n%s", where, refusals, rt.context())
+				}
+				evid.Count("route.fullsync")
+				if attempts > 1 {
+					evid.Count("route.fullsync.refused_block_then_reset_to_head")
+				}
 			}
 		}
 	}
@@ -491,4 +502,15 @@ func (rt *routes) run(t *rapid.T, img dbm.DB, where string, interruptedDiff bool
 			}
 		}
 	}
+}
+
+// harnessLimit: the error says that the harness itself could not produce an honest input (its messages start with
+// "harness: "), e.g. a block for which it owns no committee key and hence cannot build a certificate. Such a route ends
+// without a verdict; it is counted.
+func harnessLimit(err error) bool {
+	if err != nil && strings.Contains(err.Error(), "harness: ") {
+		evid.Count("routes.ended_without_verdict.harness_cannot_build_the_honest_input")
+		return true
+	}
+	return false
 }
